@@ -1,7 +1,9 @@
 (* ArchiveRestore.v -- what _thaw restores (for every frozen archive, no size bound), the
    end-to-end statement freeze -> storage -> thaw for declared intermediates, the bridge from
-   restored registries to the kernel's session state, and the concrete witnesses of the three
-   defects (JSON complex-as-list, XML empty label, NaN dof on a same-session reload). *)
+   restored registries to the kernel's session state, the two statements that fixes
+   C07-json-complex-list and C07-nan-dof-same-session made provable (a JSON load is the pickle
+   load; node records, NaN dof included, re-attach in the writing session), their concrete
+   instances, and the witness of the remaining defect (XML empty label). *)
 From Coq Require Import ZArith List Bool String Lia.
 From Coq Require Import PrimFloat.
 From GTCV Require Import Num FNum Vector VectorFacts Opres KTypes Kernel Archive ArchiveFacts ArchiveCase.
@@ -343,6 +345,76 @@ Section Restore.
     inversion E3; subst t3 o3. destruct (build_elem _ _ _ _ _ Eb) as [l (_ & Hx & Hu & Hi & Hv)].
     exists ob, l. repeat split; assumption.
   Qed.
+  (* ---------- JSON restores what pickle restores ---------- *)
+  (* in a session every complex pairing is a tuple: ucomplex / _thaw write tuples, and (since
+     fix C07-json-complex-list) so does every reader *)
+  Definition ctx_tuples (cx : actx) : Prop :=
+    forall k l, assoc (cx_leaves cx) k = Some l -> cplx_tuple N l.
+
+  Lemma collect_leaves_tuples cx ks : forall acc L,
+    ctx_tuples cx -> Forall (fun kl => cplx_tuple N (snd kl)) acc ->
+    collect_leaves N cx ks acc = Ok L -> Forall (fun kl => cplx_tuple N (snd kl)) L.
+  Proof.
+    induction ks as [|k ks IH]; intros acc L Hcx Hacc H; simpl in H.
+    - inversion H; subst. exact Hacc.
+    - destruct (assoc (cx_leaves cx) k) as [l|] eqn:E; [|discriminate].
+      apply (IH _ _ Hcx) in H; [exact H|].
+      clear H IH. induction acc as [|[k0 l0] acc IHa]; simpl.
+      + constructor; [exact (Hcx k l E)|constructor].
+      + inversion Hacc; subst. destruct (keqb k k0).
+        * constructor; [exact (Hcx k l E)|assumption].
+        * constructor; [assumption|now apply IHa].
+  Qed.
+
+  Lemma freeze_tuples cx A f : ctx_tuples cx -> freeze N cx A = Ok f -> tuples N f.
+  Proof.
+    unfold freeze. intros Hcx H.
+    assert (G : forall L, collect_leaves N cx (flat_map (obj_keys N) (unreals N A)) [] = Ok L ->
+                forall k l, In (k, l) L -> cplx_tuple N l).
+    { intros L HL k l Hin. pose proof (collect_leaves_tuples _ _ _ _ Hcx (Forall_nil _) HL) as F.
+      rewrite Forall_forall in F. exact (F (k, l) Hin). }
+    destruct (a_treal A) as [|t0 tr] eqn:Et; destruct (a_tcplx A) as [|z0 zr] eqn:Ez; try discriminate;
+      (destruct (forallb _ _); [|discriminate]);
+      (destruct (collect_leaves N cx _ []) as [leaves|] eqn:EL; [|discriminate]); cbn [bind] in H;
+      (destruct (collect_interm N cx _ []) as [interm|]; [|discriminate]); cbn [bind] in H;
+      (match type of H with context [freeze_tagged ?n ?c ?i ?l] => destruct (freeze_tagged n c i l) as [treal|]; [|discriminate] end);
+      cbn [bind] in H;
+      (match type of H with context [bind (freeze_tagged ?n ?c ?i ?l) _] => destruct (freeze_tagged n c i l) as [ur|]; [|discriminate] end);
+      cbn [bind] in H; inversion H; subst; intros k l Hin; cbn [f_leaves] in Hin; exact (G _ eq_refl k l Hin).
+  Qed.
+
+  (* For every session, every archive and every reading session: writing with dumps_json and reading
+     with loads_json gives exactly -- registries, restored numbers, or the same exception -- what
+     the pickle path gives.  (This is the statement the list-valued complex pairing refuted.) *)
+  Theorem json_like_pickle (cx cx' : actx) (A : archive) f :
+    freeze N cx A = Ok f -> frozen_ok N f -> ctx_tuples cx ->
+    store_restore N Json cx A cx' = store_restore N Pickle cx A cx'.
+  Proof.
+    intros Hf Hok Hcx. unfold store_restore. rewrite Hf. cbn [bind]. unfold transport.
+    rewrite (json_roundtrip_exact N f Hok (freeze_tuples _ _ _ Hcx Hf)). reflexivity.
+  Qed.
+
+  (* ---------- node records re-attach in the writing session, whatever their dof ---------- *)
+  Lemma dof_reuse_ok (d : V) : (eqb N d d || (negb (eqb N d d) && negb (eqb N d d))) = true.
+  Proof. destruct (eqb N d d); reflexivity. Qed.
+
+  Lemma label_eqb_refl lb : label_eqb lb lb = true.
+  Proof. destruct lb as [s|]; simpl; [apply String.eqb_refl|reflexivity]. Qed.
+
+  (* the second loop of _thaw, run in a session that still holds the archived node records:
+     every new_node call finds its record indistinguishable and the registry is unchanged --
+     for ANY dof, NaN (a zero-uncertainty intermediate) included; the standard uncertainty of a
+     node is never NaN *)
+  Theorem thaw_nodes_same_session (L : list (key * anode)) (cx : actx) :
+    (forall k n, In (k, n) L -> assoc (cx_nodes cx) k = Some n) ->
+    (forall k n, In (k, n) L -> eqb N (an_u n) (an_u n) = true) ->
+    thaw_nodes N cx L = Ok cx.
+  Proof.
+    induction L as [|[k n] L IH]; intros Hreg Hu; simpl; [reflexivity|].
+    unfold new_node. rewrite (Hreg k n (or_introl eq_refl)).
+    rewrite label_eqb_refl, (Hu k n (or_introl eq_refl)), dof_reuse_ok. cbn [andb bind].
+    apply IH; intros k' n' Hin; [apply Hreg|apply (Hu k')]; now right.
+  Qed.
 End Restore.
 
 (* ================= the bridge to the kernel's session state ================= *)
@@ -399,15 +471,16 @@ Definition restored_ws (c : codec) : res (float * dfval float * option float) :=
   | Err e => Err e
   end.
 
-(* JSON: the leaf of an untagged complex influence comes back with complex as a LIST, and the
-   dof of any further result raises AssertionError; pickle and XML restore it *)
-Lemma json_complex_list_witness :
-  restored_leaf Json L1 = Some (@mkAL NF None f1 f5 false (Some (CList, L1, L2)) (Some [(L1, f1); (L2, half)]) (Some []))
+(* the history that used to break (fixed finding C07-json-complex-list): the leaves of the untagged
+   complex influence come back from JSON exactly as from pickle and XML, and Welch-Satterthwaite on
+   a further result gives dof 5 on all three paths *)
+Lemma json_complex_restored :
+  restored_leaf Json L1 = Some (wleaf L1 L2) /\ restored_leaf Json L2 = Some (wleaf L2 L1)
   /\ restored_leaf Xml L1 = Some (wleaf L1 L2) /\ restored_leaf Pickle L1 = Some (wleaf L1 L2)
-  /\ restored_ws Json = Err AssertionError
-  /\ restored_ws Xml = welch_satterthwaite NF (to_kstate NF wctx) (mkU f4 [] [(L1, f2); (L2, f1)] [] NoNode) None
-  /\ restored_ws Pickle = restored_ws Xml
-  /\ restored_ws Xml = Ok (7%float, DFin f5, None).
+  /\ restored_ws Json = Ok (7%float, DFin f5, None)
+  /\ restored_ws Xml = Ok (7%float, DFin f5, None)
+  /\ restored_ws Pickle = Ok (7%float, DFin f5, None)
+  /\ restored_ws Json = welch_satterthwaite NF (to_kstate NF wctx) (mkU f4 [] [(L1, f2); (L2, f1)] [] NoNode) None.
 Proof. repeat split; reflexivity. Qed.
 
 (* XML: a leaf labelled "" comes back labelled None, and a same-session reload is refused *)
@@ -425,15 +498,19 @@ Lemma xml_empty_label_witness :
   /\ (exists r, store_restore NF Json xctx xar xctx = Ok r).
 Proof. repeat split; try reflexivity. eexists; reflexivity. Qed.
 
-(* an intermediate whose dof is NaN (zero uncertainty from finite-dof inputs) cannot be
-   reloaded in the session that wrote it, whatever the format: new_node compares df with == *)
+(* the history of fixed finding C07-nan-dof-same-session: an intermediate whose dof is NaN (zero
+   uncertainty from finite-dof inputs) is read back in the session that wrote it, on every path,
+   and the registries of that session are what they were *)
 Definition nctx : actx NF :=
   @mkCx NF [(L1, @mkAL NF None f1 f5 true None None None)] [(M1, @mkAN NF (Some "y"%string) f0 nan)].
 Definition nar : archive NF := @mkAr NF [("y"%string, mkU f0 [(L1, f0)] [] [(M1, f0)] (NodeRef M1))] [].
 
-Lemma nan_dof_witness :
-  store_restore NF Pickle nctx nar nctx = Err RuntimeError
-  /\ store_restore NF Json nctx nar nctx = Err RuntimeError
-  /\ store_restore NF Xml nctx nar nctx = Err RuntimeError
-  /\ (exists r, store_restore NF Pickle nctx nar (empty_ctx NF) = Ok r).
-Proof. repeat split; try reflexivity. eexists; reflexivity. Qed.
+Definition same_session_ok (c : codec) : bool :=
+  match store_restore NF c nctx nar nctx with
+  | Ok (cx', A') => actx_eqb cx' nctx && archive_eqb A' nar
+  | Err _ => false
+  end.
+
+Lemma nan_dof_reloaded :
+  same_session_ok Pickle = true /\ same_session_ok Json = true /\ same_session_ok Xml = true.
+Proof. repeat split; reflexivity. Qed.
